@@ -62,7 +62,12 @@ PARTIAL = [
     "inside limits that are grid points stays inside them (format_1f_stays_in_range, format_5e_stays_in_range)",
     "SYNC: acceptance by the `max < 3*std` test for PRBS patterns is checked by the oracle only (the model decides the test exactly and "
     "the correspondence compares it; no theorem that PRBS patterns pass it)",
-    "SYNC with Gaussian noise (sigma <= 0.2 of the amplitude): oracle only",
+    "SYNC with noise: the logic core is a theorem (sync_corr_linear, sync_margin_general, sync_argmax_margin, sync_argmax_half_gap, "
+    "sync_gap_pos, sync_noise_amplitude_bound over any ordered commutative ring): whenever the noise correlation differences stay "
+    "below the clean gaps the argmax is d. The harness evaluates that hypothesis numerically on every noisy case (feature "
+    "margin=satisfied/not-satisfied) and then demands index d deterministically (sig C20:sync-margin); short noisy records are also run "
+    "exactly over Rat by the model. NOT a theorem: that Gaussian noise of sigma <= 0.2 satisfies the margin hypothesis (statistical; "
+    "cases where it fails keep the statistical oracle for sigma <= 0.2 and are not demanded above), and the float evaluation of the margin",
     "fftconvolve is modelled as the exact correlation sum (floating-point FFT error is far below the integer gap 1)",
     "aperiodicity of np.kron(PRBS, ones(sps)) is a hypothesis of sync_argmax, evaluated numerically on every generated pattern",
     "scalar getters: the model only emits the queries; the returned values are checked by the oracle against its own reference state",
@@ -488,6 +493,21 @@ def run_sync(case):
     else:
         rxf = rx.astype(float)
     before = rxf.copy()
+    if sigma and len(w) > 0 and len(rx) >= 2 * len(w) - 1:
+        # hypothesis of Props.C20.sync_margin_general evaluated numerically: ce(m) - ce(d) < cc(d) - cc(m) for all m != d
+        l = len(w)
+        cc = np.correlate(rx[:2 * l - 1].astype(float), w.astype(float), "valid")
+        ce = np.correlate((rxf - rx)[:2 * l - 1], w.astype(float), "valid")
+        dd = case["d"]
+        if dd < len(cc):
+            slack = (cc[dd] - cc) - (ce - ce[dd])
+            slack[dd] = np.inf
+            tol = 1e-9 * (abs(cc[dd]) + 1.0)
+            res["margin"] = bool(np.all(slack > tol))
+            res["min_slack"] = float(np.min(slack))
+            res["gap"] = float(np.min(np.delete(cc[dd] - cc, dd))) if len(cc) > 1 else None
+            tot = np.sort(cc + ce)
+            res["top_sep"] = float(tot[-1] - tot[-2]) if len(tot) > 1 else 1.0
     form = case.get("form", "ndarray")
     try:
         with warnings.catch_warnings():
@@ -572,9 +592,16 @@ def model_requests(case, res):
         if not all(op_modelable(o) for o in case["ops"]):
             return []
         return ["ppg.hist " + " ".join([str(len(case["ops"]))] + [enc_op(o) for o in case["ops"]])]
-    if case.get("sigma", 0) or res.get("status") == "timeout":
+    if res.get("status") == "timeout":
         return []
     tx, w, rx = sync_rx(case)
+    if case.get("sigma", 0):
+        if len(w) > 300 or len(w) == 0:
+            return []                     # exact rational run only for short waveforms (cost l^2 rational operations)
+        rs = np.random.RandomState(case["noise_seed"])
+        rxf = rx.astype(float) + case["sigma"] * case["amp"] * rs.standard_normal(len(rx))
+        return ["ppg.syncq " + " ".join([str(case["sps"]), str(len(tx))] + [str(int(b)) for b in tx] + [str(len(rxf))]
+                                        + [frat(Fraction(float(x))) for x in rxf])]
     return ["ppg.sync " + " ".join([str(case["sps"]), str(len(tx))] + [str(int(b)) for b in tx]
                                    + [str(len(rx))] + [str(int(x)) for x in rx])]
 
@@ -700,6 +727,18 @@ def compare_sync(case, res, rep):
     t = rep.split()
     if res["status"] == "timeout":
         return []
+    if case.get("sigma", 0):              # `ppg.syncq`: the same definitions run over Rat on the noisy record
+        if t[0] == "err":
+            return [] if (res["status"] == "err" and res["err"] == t[1]) else \
+                [f"rational model raises {t[1]}, implementation {res.get('index', res.get('err'))}"]
+        if res["status"] != "ok":
+            return [f"rational model returns index {t[1]}, implementation raises {res.get('err')} ({res.get('detail')})"]
+        out = []
+        if res["index"] != int(t[1]) and res.get("top_sep", 1.0) > 1e-6:      # not a floating-point near-tie of the two best lags
+            out.append(f"rational model argmax {t[1]}, implementation {res['index']}")
+        if res["outlen"] != int(t[2]):
+            out.append(f"rational model signal length {t[2]}, implementation {res['outlen']}")
+        return out
     if t[0] == "err":
         if res["status"] != "err":
             if len(t) >= 6 and _near(int(t[4]), int(t[5])):
@@ -1023,7 +1062,15 @@ def oracle_sync(case, res):
     demanded = (case["pat"]["k"] == "prbs" and case["pat"]["n"] >= 32 and case["sps"] >= 1 and res["aperiodic"]
                 and case.get("rxlen") is None and case["periods"] >= 2 and d < l and case["amp"] > 0
                 and case.get("offset", 0) == 0)
+    if case.get("sigma", 0) > 0.2:
+        demanded = False                  # beyond "moderate noise": only the decision-margin theorem says anything (index d
+                                          # when the margin hypothesis holds and the record is not rejected by the 3*std test)
     v = []
+    if res.get("margin") and res["status"] == "ok" and res["index"] != d:
+        # deterministic consequence of sync_margin_general: the noise moved no competing lag past the true peak
+        v.append(("C20:sync-margin", f"margin hypothesis holds (min slack {res.get('min_slack'):.3g}) but SYNC returned {res['index']}, "
+                                     f"delay is {d}: {json.dumps(case)[:200]}"))
+        return v
     if demanded:
         if res["status"] != "ok":
             v.append(("C20:sync-rejected", f"PRBS{case['pat']['order']}[{case['pat']['n']}] sps={case['sps']} d={d} fill={case['fill']} "
@@ -1392,6 +1439,18 @@ def gen_sync_cases(rng, tier):
         d = rng.choice([0, 0, 1, l - 1, rng.randrange(l), rng.randrange(l), rng.randrange(l)])
         add(order, n, sps, d, fill=rng.choice(["cyclic", "zeros"]), sigma=rng.choice([0.05, 0.1, 0.2]), periods=rng.choice([2, 3]),
             extra=rng.randrange(0, l))
+    # short noisy records: also run exactly over Rat by the model; strong noise is demanded only when the margin hypothesis holds
+    for _ in range(40 if tier == "quick" else 300):
+        n = rng.choice([32, 40, 64, 100, 127])
+        sps = rng.choice([1, 2]) if n > 64 else rng.choice([1, 2, 3])
+        l = n * sps
+        add(7, n, sps, rng.choice([0, 1, l - 1, rng.randrange(l), rng.randrange(l)]), fill=rng.choice(["cyclic", "zeros"]),
+            sigma=rng.choice([0.05, 0.1, 0.2, 0.3, 0.5, 0.8]), periods=2, extra=rng.randrange(0, l), seed=rng.choice([None, 5, 99]))
+    for _ in range(20 if tier == "quick" else 150):      # noise strong enough to break the margin on short patterns
+        n, sps = rng.choice([(32, 1), (32, 2), (40, 1), (64, 1)])
+        l = n * sps
+        add(7, n, sps, rng.randrange(l), fill=rng.choice(["cyclic", "zeros"]), sigma=rng.choice([1.0, 1.5, 2.5]), periods=2,
+            extra=rng.randrange(0, l), seed=rng.choice([None, 5]))
     # short records -> BufferError; exactly one pattern length; just above
     for (order, n, sps) in [(7, 127, 1), (7, 127, 4), (9, 511, 2), (7, 40, 3)]:
         l = n * sps
@@ -1474,6 +1533,8 @@ def features(case, res):
             f.append("periodic-waveform")
         if case["d"] == 0:
             f.append("delay=0")
+        if "margin" in res:
+            f.append("margin=" + ("satisfied" if res["margin"] else "not-satisfied"))
     return f
 
 
